@@ -248,7 +248,9 @@ class PODReader(Reader):
         # Perform common corrections first.
         super().correct_scan_line_numbers()
 
-        # cleaning up the data
+        # cleaning up the data: records numbered 0 are not scan lines, drop them
+        # before looking for the lowest scan line number
+        self.scans = self.scans[self.scans["scan_line_number"] != 0]
         min_scanline_number = np.amin(
             np.absolute(self.scans["scan_line_number"][:]))
         if self.scans["scan_line_number"][0] == self.scans["scan_line_number"][-1] + 1:
@@ -257,8 +259,6 @@ class PODReader(Reader):
         else:
             while self.scans["scan_line_number"][0] != min_scanline_number:
                 self.scans = self.scans[1:]
-
-        self.scans = self.scans[self.scans["scan_line_number"] != 0]
 
     def read(self, filename, fileobj=None):
         """Read the data.
